@@ -956,6 +956,8 @@ class Patron(object):
         if self.redirects:
             redirect = self.redirects[-1]
             location = redirect['headers'].get('location')
+            if not location:
+                raise httping.InvalidURL("Redirect without Location header")
             path, sep, query = location.partition('?')
             path = unquote(path)
             if sep:
@@ -970,9 +972,14 @@ class Patron(object):
                                              host,
                                              self.requester.port,
                                              self.requester.path)
-            splits = urlsplit(urljoin(base, location))
-            hostname = splits.hostname
-            port = splits.port
+            try:
+                splits = urlsplit(urljoin(base, location))
+                hostname = splits.hostname
+                port = splits.port
+                if not hostname:  # authority without a host such as http://:81/x
+                    raise ValueError("no host")
+            except ValueError as ex:  # bad port, bracketed host or no host in Location
+                raise httping.InvalidURL("Invalid redirect location '{0}': {1}".format(location, ex))
             scheme = splits.scheme
             scheme = 'https' if scheme.lower() == 'https' else 'http'
             if scheme == 'https':
@@ -988,7 +995,10 @@ class Patron(object):
 
             method = redirect.get('method')
 
-            host = aioing.normalizeHost(hostname)
+            try:
+                host = aioing.normalizeHost(hostname)
+            except socket.error as ex:  # host of Location does not resolve
+                raise httping.InvalidURL("Invalid redirect location '{0}': {1}".format(location, ex))
             ha = (host, port)
             if ha != self.connector.ha or scheme != self.requester.scheme:
                 if self.requester.scheme == 'https' and scheme != 'https':
@@ -1106,10 +1116,18 @@ class Patron(object):
                                       ('errored', self.respondent.errored),
                                       ('error', self.respondent.error),
                                      ])
+                    redirected = False
                     if self.respondent.redirectable and self.respondent.redirectant:
                         self.redirects.append(copy.copy(response))
-                        self.redirect()
-                    else:
+                        try:
+                            self.redirect()
+                            redirected = True
+                        except httping.InvalidURL as ex:  # deliver the redirect response itself, errored
+                            self.redirects.pop()
+                            self.respondent.redirectant = False  # not pending any more: do not redirect the next response
+                            response['errored'] = True
+                            response['error'] = str(ex)
+                    if not redirected:
                         if self.redirects:
                             response['redirects'] = copy.copy(self.redirects)
                         self.redirects = []
